@@ -97,6 +97,30 @@ func spacesPart(r *ev.Report) int64 {
 	return n
 }
 
+// scriptsPart: unbroken runs longer than the width in scripts whose letters a renderer might
+// count differently from Latin ones (Han, kana, hangul, full-width forms, Cyrillic, Arabic,
+// Devanagari with combining signs, emoji), alone and after a narrow letter, in the same
+// places of the four markups, at every width 1..40.
+func scriptsPart(r *ev.Report) int64 {
+	var n int64
+	for _, unit := range []string{"\u5b57", "\u3042", "\u30ab", "\ud55c", "\uff21", "\u0436", "\u0639", "\u0915\u093f", "\U0001f600", "\u5b57a"} {
+		for _, lead := range []string{"", "a", "ab "} {
+			for _, reps := range []int{7, 30, 45} {
+				t := lead + strings.Repeat(unit, reps)
+				for _, d := range [][2]string{
+					{"text/html", "<p>" + t + "</p>"}, {"text/html", "<ul><li>" + t + "</li></ul>"}, {"text/html", "<blockquote>" + t + "</blockquote>"}, {"text/html", `<a href="https://t.example/x">` + t + "</a>"}, {"text/html", "<pre>" + t + "</pre>"},
+					{"text/markdown", t}, {"text/markdown", "> " + t}, {"text/markdown", "* " + t}, {"text/markdown", "[" + t + "](https://t.example/x)"},
+					{"text/gemini", t}, {"text/gemini", "> " + t}, {"text/gemini", "=> https://t.example/x " + t}, {"text/gemini", "* " + t},
+					{"text/plain", t}, {"text/plain", t + " https://t.example/x " + t},
+				} {
+					n += checkWidthAt(r, d[1], d[0], denseWidths)
+				}
+			}
+		}
+	}
+	return n
+}
+
 func checkWidthAt(r *ev.Report, doc, mt string, widths []int) int64 {
 	m, err := markup(doc, mt)
 	if err != nil {
@@ -281,7 +305,7 @@ func main() {
 		"width: every document of the HTML forest grammar (<=2 nodes over the full label set, <=3 (quick) / <=4 (thorough) nodes over 14 representative labels), and every line sequence "+
 			"of the gemtext/Markdown/plaintext grammars (<=2 / <=3 lines), rendered through object.GetMarkup at 16 widths {1..13,79,80,81}; "+
 			"7 texts built under the four media types in every order of two and three, each compared with the markup's own renderer called directly; "+
-			"15 kinds of white space between words (no-break, narrow no-break, figure, thin, ideographic, zero-width, line separator, tab, word joiner ...; raw and as character references) in paragraphs, list entries, quotations and link labels of the four markups at every width 1..40; "+
+			"15 kinds of white space between words (no-break, narrow no-break, figure, thin, ideographic, zero-width, line separator, tab, word joiner ...; raw and as character references) in paragraphs, list entries, quotations and link labels of the four markups at every width 1..40; unbroken runs of 7, 30 and 45 letters in ten scripts (Han, kana, hangul, full-width, Cyrillic, Arabic, Devanagari with a combining sign, emoji, Han and Latin alternating), alone and after a narrow letter, in the same places at every width 1..40; "+
 			"histories: explicit-state search over the render cache: state = last rendered width, transition = Render(w), all width sequences of length <=2 (quick) / <=3 (thorough) over {1,3,80,81,200} on the complete "+
 			"small document spaces, each result compared byte-for-byte with a fresh parse; nine large documents (code listings of 40/200/700 lines in HTML and Markdown, 300 paragraphs, gemtext and plain listings) at widths 60/80/100 with 3 (quick) / 11 (thorough) short histories that repeat a width; ten documents whose attribute values or text imitate an over-long escape sequence; distinct_nontrivial = documents with at least one rendered line break or link")
 	debug.SetGCPercent(800)
@@ -362,6 +386,7 @@ func main() {
 		}
 	}
 	r.Eval(spacesPart(r))
+	r.Eval(scriptsPart(r))
 	r.Eval(sameTextPart(r))
 	// histories
 	type hres struct {
